@@ -2,6 +2,7 @@ package main
 
 import (
 	"fmt"
+	"go/types"
 	"strings"
 
 	"golang.org/x/tools/go/ssa"
@@ -199,7 +200,28 @@ func c19R2(e *Engine) {
 			}
 			bad = c.V.String()
 		}
-		e.check(bad == "" && ranges >= 2, "R2", construct+":loops", e.ipos(dispatch), "every request of every table is executed (range loops: %d, extra condition: %q)", ranges, bad)
+		if bad == "" {
+			if _, why := e.visitsEveryElement(dispatch, nil); why != "" {
+				bad = why
+			}
+		}
+		e.check(bad == "" && ranges >= 2, "R2", construct+":loops", e.ipos(dispatch), "every request of every table is executed (range loops: %d, problem: %q)", ranges, bad)
+		// requests are executed in the order given: the inner loop ranges over the request list as supplied and nothing reorders it
+		reorder := ""
+		for g := range e.reach(bw) {
+			if e.fnRole(g) != role || e.reach(put)[g] && g != bw {
+				continue
+			}
+			instrs(g, func(in ssa.Instruction) {
+				if c, ok := in.(*ssa.Call); ok {
+					n := staticCalleeName(c)
+					if strings.HasPrefix(n, "sort.") || strings.HasPrefix(n, "slices.Sort") || strings.HasPrefix(n, "slices.Reverse") {
+						reorder = n + " at " + e.ipos(in)
+					}
+				}
+			})
+		}
+		e.check(reorder == "", "R2", construct+":order-preserved", e.pos(bw.Pos()), "the requests of a table are executed in the order given (reordering call: %q) – a put and a delete of the same key must take effect in sequence", reorder)
 	}
 }
 
@@ -317,4 +339,63 @@ func c19R4(e *Engine) {
 		bad = fmt.Sprintf("could not find the two accumulations (unprocessed:%d responses:%d)", nUn, nResp)
 	}
 	e.check(bad == "", "R4", "v2.Client.BatchGetItem:unprocessed-only-on-error", e.ipos(helperCall), "keys become unprocessed only on the error edge, items are returned only on the success edge %s", bad)
+	// (d) per-table accumulators: what is stored under a table's name is allocated for that table (inside the table loop)
+	var outer map[*ssa.BasicBlock]bool
+	for _, body := range naturalLoops(bg) {
+		if body[helperCall.Block()] && (outer == nil || len(body) > len(outer)) {
+			outer = body
+		}
+	}
+	shared := ""
+	instrs(bg, func(in ssa.Instruction) {
+		mu, ok := in.(*ssa.MapUpdate)
+		if !ok || outer == nil {
+			return
+		}
+		if _, isSlice := mu.Value.Type().Underlying().(*types.Slice); !isSlice {
+			return
+		}
+		// roots of the stored slice: make/literal sites reached through append/slice/phi
+		seen := map[ssa.Value]bool{}
+		var walk func(v ssa.Value)
+		walk = func(v ssa.Value) {
+			v = strip(v)
+			if seen[v] {
+				return
+			}
+			seen[v] = true
+			switch x := v.(type) {
+			case *ssa.MakeSlice:
+				if !outer[x.Block()] {
+					shared = "a slice made once at " + e.ipos(x) + " (outside the loop over tables) is stored under each table name at " + e.ipos(in)
+				}
+			case *ssa.Alloc: // make with constant size is lowered to an array allocation
+				if !outer[x.Block()] {
+					shared = "a buffer allocated once at " + e.ipos(x) + " (outside the loop over tables) is stored under each table name at " + e.ipos(in)
+				}
+			case *ssa.Phi:
+				for _, ed := range x.Edges {
+					walk(ed)
+				}
+			case *ssa.Slice:
+				walk(x.X)
+			case *ssa.Call:
+				if staticCalleeName(x) == "builtin.append" {
+					walk(x.Call.Args[0])
+				}
+			case *ssa.Lookup:
+				// responses[table] read back: its own previous value
+			case *ssa.Extract:
+				walk(x.Tuple)
+			case *ssa.UnOp:
+				if al, ok := x.X.(*ssa.Alloc); ok {
+					for _, st := range storesTo(al) {
+						walk(st.Val)
+					}
+				}
+			}
+		}
+		walk(mu.Value)
+	})
+	e.check(shared == "", "R4", "v2.Client.BatchGetItem:per-table-accumulators", e.pos(bg.Pos()), "each table's response list is allocated for that table %s", shared)
 }
